@@ -6,8 +6,10 @@ mod files;
 mod iters;
 mod layout;
 mod merger;
+mod open;
 mod sorter;
 mod util;
+mod varint;
 
 use std::path::PathBuf;
 use util::*;
@@ -36,6 +38,10 @@ fn run_scenario(out: &mut TraceOut, family: &str, seed: u64, idx: u64, heavy: bo
         "sorter" => sorter::scn_sorter(out, &mut r, idx, heavy),
         "spill" => sorter::scn_spill(out, &mut r, idx, heavy),
         "sorter_real" => sorter::scn_sorter_real(out, &mut r, idx, true),
+        "open" => open::scn_open(out, &mut r, idx, heavy),
+        "varint_sweep" => varint::scn_sweep(out),
+        "varint_windows" => varint::scn_windows(out, &mut r, heavy),
+        "framing" => cursor::scn_framing(out, &mut r, idx, heavy),
         "format" => layout::scn_format(out, &mut r, idx, heavy),
         "cut" => layout::scn_cut(out, &mut r, idx, heavy),
         "unsorted" => layout::scn_unsorted(out, &mut r, idx, heavy),
